@@ -88,14 +88,16 @@ pub fn grid(seed: u64, tier: Tier) -> Vec<(String, Logical)> {
                 aux_seed: rng.next_u64(),
                 opts: Default::default(),
             };
+            let mut logical = logical;
+            logical.opts.shuffle_manifest = j % 2 == 1 || packaging == Packaging::Concat;
             out.push((format!("m-{}-{}-p{}", packaging.name(), comp.name(), packs), logical));
         }
     }
     // packs that can only be found by uuid inside the file at hand (every recorded location is
     // empty), and a container that stores one pack twice
     for (j, (tag, opts)) in [
-        ("emptyloc", LogicalOpts { empty_locations: true, concat_dup: false }),
-        ("dup", LogicalOpts { empty_locations: false, concat_dup: true }),
+        ("emptyloc", LogicalOpts { empty_locations: true, ..Default::default() }),
+        ("dup", LogicalOpts { concat_dup: true, ..Default::default() }),
     ]
     .into_iter()
     .enumerate()
